@@ -2,11 +2,11 @@ module verifharness
 
 go 1.20
 
-require github.com/esimov/gogu v0.0.0
-
 require (
-	golang.org/x/exp v0.0.0-20230303215020-44a13b063f3e // indirect
-	golang.org/x/sync v0.1.0 // indirect
+	github.com/esimov/gogu v0.0.0
+	golang.org/x/exp v0.0.0-20230303215020-44a13b063f3e
 )
+
+require golang.org/x/sync v0.1.0 // indirect
 
 replace github.com/esimov/gogu => /repo
